@@ -10,6 +10,7 @@ import LolHtml.Lane.Esc
 import LolHtml.Lane.CApi
 import LolHtml.Lane.Sel
 import LolHtml.Lane.Edit
+import LolHtml.Lane.Attrs
 
 namespace LolHtml.Lane
 
@@ -27,7 +28,8 @@ def registry : List (String × (String → String)) :=
     ("esc", Esc.run),
     ("capi", CApi.run),
     ("sel", Sel.run),
-    ("edit", Edit.run) ]
+    ("edit", Edit.run),
+    ("attrs", Attrs.run) ]
 
 def find (name : String) : Option (String → String) :=
   (registry.find? (·.1 == name)).map (·.2)
